@@ -375,6 +375,8 @@ class Run:
         return rc
 
     def write_evidence(self, proof, n_viol):
+        if os.environ.get("VERIF_NO_EVIDENCE"):
+            return   # trial runs against a scratch copy with a seeded change: evidence comes from /repo itself only
         mod = self.mod
         aud = proof["audit"]
         ev = {
